@@ -122,12 +122,13 @@ def reader_table(fb):
         for ls, arm in best[1]:
             for l in ls or []:
                 table[l] = [c for c in hirq.called_defs(arm["body"]) if c.startswith("structs::")]
-    for x in hirq.walk(h["body"]):
-        if x.get("k") == "if":
-            r = hirq.eq_literal_test(x["cond"])
-            if r and r[1] in SPEC.ST_CELL_TYPE and not r[2]:
-                table.setdefault(r[1], [])
-                table[r[1]] += [c for c in hirq.called_defs(x["then"]) if c.startswith("structs::")]
+    for hb in reader_bodies(fb):
+        for x in hirq.walk(hb["body"]):
+            if x.get("k") == "if":
+                r = hirq.eq_literal_test(x["cond"])
+                if r and r[1] in SPEC.ST_CELL_TYPE and not r[2]:
+                    table.setdefault(r[1], [])
+                    table[r[1]] += [c for c in hirq.called_defs(x["then"]) if c.startswith("structs::")]
     return table, best[0] if best else None
 
 
